@@ -144,6 +144,7 @@ def heavy(obj):
         q("in_hull_norm", lambda: obj.in_hull(PROBES.copy(), normalized=True))
         q("sample", lambda: obj.sample_in_hull(5, seed=3))
         q("gamut", lambda: obj.compute_gamut(seed=1))
+        q("gamut_abs", lambda: obj.compute_gamut(seed=1, relative=False))
         q("dist_scaling", lambda: obj.gamut_dist_scaling(PROBES.copy()))
         q("l1_scaling", lambda: obj.gamut_l1_scaling(PROBES.copy()))
         if obj.underdetermined:
@@ -260,6 +261,13 @@ def _replay(st, mode):
             bad.append(("C14.query-pure", dict(q=name, **where0), None, None))
     ref = fresh_from(dreye, est, B=shadow["B"] if est["treg"] else None)
     hr = heavy(ref)
+    if "sample" in h1 and not isinstance(h1["sample"], str) and est["reg"]:
+        try:
+            ok = np.asarray(ref.in_hull(np.asarray(h1["sample"], float))).astype(bool)
+            if not ok.all():
+                bad.append(("C14.ref-model", dict(q="sample-in-current-gamut", **where0), True, ok.tolist()))
+        except Exception:
+            pass
     for name in hr:
         if name == "sample":
             # seeded sampling is not a continuous function of the registered values (qhull's simplex order may flip
